@@ -119,7 +119,7 @@ RULE = ('One execution per case on the real Connection over the virtual '
         'replay runs the case alone in a fresh process and, if it passes '
         'alone, again after repeating those earlier executions, so that a '
         'failure caused by process-wide state carried from one Connection '
-        'object to the next is reproduced.')
+        'object to the next is reproduced.  Identity: besides users and profiles fixed at construction, a username assigned and a token profile replaced AFTER construction and before the call: the login start names what the object holds when connect() is called.')
 ASSUMPTIONS = [
     'publication order and the supported/known tables are read from the tree '
     'under test (minecraft.KNOWN_PROTOCOL_VERSIONS, SUPPORTED_PROTOCOL_VERSIONS,'
@@ -152,7 +152,35 @@ ENVS = [
     ('10.0.0.7', 65535, USERNAME, True),
     ('srv', 25566, None, True),
     ('h', 443, 'a', False),
+    # identity that changes between construction and the call: the login
+    # start names the user / profile as it is when connect() is called
+    ('srv', 25565, '@late:Late_User9', False),
+    ('srv', 25565, None, 'late'),
 ]
+
+
+def _env(i):
+    host, port, username, auth = ENVS[i]
+    if username is not None and username.startswith('@late:'):
+        username = username[6:]
+    return host, port, username, bool(auth)
+
+
+def _late_identity(conn, i):
+    """Give the Connection its real identity after construction."""
+    host, port, username, auth = ENVS[i]
+    if username is not None and username.startswith('@late:'):
+        conn.username = username[6:]
+    if auth == 'late':
+        conn.auth_token.profile = _Profile(PROFILE)
+
+
+def _ctor_identity(kw, i):
+    host, port, username, auth = ENVS[i]
+    if username is not None and username.startswith('@late:'):
+        kw['username'] = 'Placeholder0'
+    if auth == 'late':
+        kw['auth_token'] = _Token('PlaceholderProfile')
 
 
 # --------------------------------------------------------------------------
@@ -375,7 +403,7 @@ def _plain_pings(ps):
 
 def body(W, case):
     kind = case['kind']
-    host, port, username, auth = ENVS[case.get('env', 0)]
+    host, port, username, auth = _env(case.get('env', 0))
     beh = tuple(case['beh']) if case.get('beh') else None
     obs = {'ctor': None, 'call': None, 'excs': [], 'exits': 0,
            'statuses': [], 'pings': [], 'stdout': ''}
@@ -403,6 +431,7 @@ def body(W, case):
           'handle_exit': lambda: exits.append(1)}
     if auth:
         kw['auth_token'] = _Token(PROFILE)
+    _ctor_identity(kw, case.get('env', 0))
     if case.get('allowed') is not None:
         al = case['allowed']
         coll = case.get('coll') or ('list' if case.get('aslist') else 'set')
@@ -423,6 +452,7 @@ def body(W, case):
             obs['ctor'] = (type(e).__name__, str(e))
             conn = None
         if conn is not None and kind != 'ctor':
+            _late_identity(conn, case.get('env', 0))
             try:
                 _invoke(conn, kind, case.get('hs'), case.get('hp'),
                         obs['statuses'], obs['pings'])
@@ -478,7 +508,7 @@ def body_seq(W, case):
 
         def construct(k):
             o = objs[k]
-            host, port, username, auth = ENVS[o.get('env', 0)]
+            host, port, username, auth = _env(o.get('env', 0))
             excs, exits = [], []
             kw = {'username': username,
                   'handle_exception': lambda e, info: excs.append(e),
@@ -604,7 +634,7 @@ def judge_connect(T, case, x):
     out = []
     allowed, initial = case['allowed'], case['initial']
     beh = tuple(case['beh'])
-    host, port, username, auth = ENVS[case.get('env', 0)]
+    host, port, username, auth = _env(case.get('env', 0))
     exp = expect_connect(T, allowed, initial, beh)
     if x.failure is not None:
         return x.failure[0], exp, [(x.failure[0], 'the client %ss: %s'
@@ -755,7 +785,7 @@ def judge_status(T, case, x):
     out = []
     allowed = case['allowed']
     beh = tuple(case['beh'])
-    host, port, username, auth = ENVS[case.get('env', 0)]
+    host, port, username, auth = _env(case.get('env', 0))
     hs_mode, hp_mode = case['hs'], case['hp']
     # status(handle_status=None, handle_ping=False): latency is requested
     # iff handle_ping is given and is not False
